@@ -58,6 +58,9 @@ def single(data, opts="default", src="slice", fast=True, fail_at=None):
 def run_witness(w):
     """Known-finding witness: {'kind':'parse', 'input_hex'|'input', 'opts', 'src', 'api', 'fast', 'expect': {...}}
     returns (still_reproduces, description)."""
+    if w.get("kind") == "stack":
+        done = stack_op(w["op"], w.get("n", 300000), w.get("dotted", False))
+        return (done is False), "operation %s on %d elements completed=%r" % (w["op"], w.get("n", 300000), done)
     if w.get("kind") == "parse":
         data = bytes.fromhex(w["input_hex"]) if "input_hex" in w else w["input"].encode()
         r = parse(data, w.get("opts", "default"), w.get("src", "slice"), w.get("api", "single"),
@@ -90,3 +93,26 @@ def print_check(fast=True, timeout=120):
     d = json.loads(p.stdout.strip().split("\n")[-1])
     d["bad"] = [bytes.fromhex(x).decode("utf-8", "replace") for x in d.get("bad", [])]
     return d
+
+
+def run_cmd(args, fast=True, timeout=120):
+    """Generic corpus command of the replay binary returning {'cases': n, 'bad': [hex strings]} (decoded here)."""
+    try:
+        p = subprocess.run([binary(fast)] + list(args), capture_output=True, text=True, timeout=timeout)
+    except subprocess.TimeoutExpired:
+        return {"crash": "timeout", "bad": ["timeout"]}
+    if p.returncode != 0:
+        return {"crash": "exit %d" % p.returncode, "stderr": p.stderr[:600], "bad": ["crash: " + p.stderr[:200]]}
+    d = json.loads(p.stdout.strip().split("\n")[-1])
+    d["bad"] = [bytes.fromhex(x).decode("utf-8", "replace") for x in d.get("bad", [])]
+    return d
+
+
+def stack_op(op, n=300000, dotted=False, fast=True, timeout=180):
+    """Runs one list operation on an n-element list on a 2 MiB thread in a child process; -> True if it completed."""
+    args = [binary(fast), "stack", op, str(n)] + (["dotted"] if dotted else [])
+    try:
+        p = subprocess.run(args, capture_output=True, text=True, timeout=timeout)
+    except subprocess.TimeoutExpired:
+        return None
+    return p.returncode == 0 and '"ok":true' in p.stdout
